@@ -9,7 +9,8 @@
 (*          nph  : 1..2,                  a second placeholder `{1}`       *)
 (*          ref  : "next","pos0","pos1","pos2","name_field","name_other",  *)
 (*          ty   : one of the 11 format types,                             *)
-(*          mod  : "none","ws","width","fill","sign","alt","zero","prec"]  *)
+(*          mod  : "none","ws","width","fill","left","center","right",     *)
+(*                 "sign" (+),"minus" (-),"alt","zero","prec"]             *)
 (*   args \in {"none","pos_field","pos_expr","named_match","named_nomatch",*)
 (*             "two"}                                                      *)
 (* Doc*: the property statement.  Impl*: FmtAttribute::transparent_call /  *)
